@@ -773,6 +773,58 @@ def hull_exact_int(Pint):
     return fs, [facets[f] for f in fs]
 
 
+def floats_to_int(P):
+    """Integer coordinates proportional to the float coordinates (every float is a dyadic rational): (Pint, shift)
+    with P == Pint / 2^shift exactly."""
+    fr = [[Fraction(float(x)) for x in p] for p in np.asarray(P, float)]
+    shift = max(max(f.denominator.bit_length() - 1 for f in row) for row in fr)
+    return [[int(f * (1 << shift)) for f in row] for row in fr], shift
+
+
+def split_hull(P, band_hull, faces, max_n=80):
+    """Resolve a disagreement between ``faces`` and the band oracle's facets that is only about rounding.
+
+    A face that is planar in the caller's mind (a rotated lattice quadrilateral) is, after rounding to float64, a few ulp
+    off its plane; the *exact* hull of the stored coordinates then has it in two or more pieces.  Merged (what the
+    statement's parenthesis asks for) and in exact pieces (what its main clause asks for) are both right readings there,
+    and so is anything in between.  Returns a Hull whose facets are ``faces`` if every face is a union of exact hull
+    facets of one band facet and the faces partition every band facet; None otherwise (a genuine disagreement)."""
+    P = np.asarray(P, float)
+    if len(P) > max_n:
+        return None
+    Pint, _ = floats_to_int(P)
+    try:
+        exact, _ = hull_exact_int(Pint)
+    except DegenerateInput:
+        return None
+    exact = [frozenset(f) for f in exact]
+    bands = [frozenset(f) for f in band_hull.facets]
+    sets = [frozenset(int(i) for i in f) for f in faces]
+    if len(set(sets)) != len(sets):
+        return None
+    owner = {}
+    for e in exact:
+        inb = [b for b in bands if e <= b]
+        if len(inb) != 1:
+            return None
+        ins = [k for k, st in enumerate(sets) if e <= st]
+        if len(ins) != 1 or not sets[ins[0]] <= inb[0]:
+            return None
+        owner.setdefault(ins[0], []).append(e)
+    if sorted(owner) != list(range(len(sets))):
+        return None
+    for k, es in owner.items():
+        if frozenset().union(*es) != sets[k]:
+            return None
+    fl, nl = [], []
+    for st in sets:
+        b = [i for i, bb in enumerate(bands) if st <= bb][0]
+        nf = np.asarray(band_hull.normals[b], float)
+        fl.append(_order_facet(P, sorted(st), nf))
+        nl.append(nf)
+    return Hull(P, fl, np.array(nl), np.array([float(np.mean(P[f] @ n)) for f, n in zip(fl, nl)]))
+
+
 def facet_area2_int(Pint, cyc):
     """4 * area^2 of the planar polygon with integer vertices listed in cyclic order (exact integer)."""
     P = [tuple(int(x) for x in Pint[i]) for i in cyc]
